@@ -16,6 +16,7 @@ import (
 	"go/token"
 	"math/big"
 	"path/filepath"
+	"sort"
 	"strings"
 
 	"github.com/ontio/ontology/common/constants"
@@ -324,7 +325,7 @@ func produceEnvelopeGen(repo string) ([]byte, []string) {
 	var b bytes.Buffer
 	var errs []string
 	fmt.Fprintf(&b, "(* GENERATED by harness/drivers/c07/gen.go from %s (go/ast) and the linked packages. Do not edit. *)\n", stFile)
-	b.WriteString("From Coq Require Import NArith Bool.\nLocal Open Scope N_scope.\nLocal Open Scope bool_scope.\n\n")
+	b.WriteString("From Coq Require Import NArith Bool String List.\nImport ListNotations.\nLocal Open Scope N_scope.\nLocal Open Scope bool_scope.\n\n")
 	b.WriteString("(* constants printed from the linked packages *)\n")
 	consts := []struct {
 		n, v, c string
@@ -338,6 +339,7 @@ func produceEnvelopeGen(repo string) ([]byte, []string) {
 		{"REFUND_HEIGHT", fmt.Sprint(uint64(sevm.RefundHeight)), "smartcontract/service/evm.RefundHeight"},
 		{"REFUND_VALUE", sevm.RefundValue.String(), "smartcontract/service/evm.RefundValue"},
 		{"GWEI", fmt.Sprint(constants.GWei), "common/constants.GWei"},
+		{"CALL_CREATE_DEPTH", fmt.Sprint(params.CallCreateDepth), "vm/evm/params.CallCreateDepth"},
 	}
 	for _, c := range consts {
 		fmt.Fprintf(&b, "Definition %s : N := %s. (* %s *)\n", c.n, c.v, c.c)
@@ -416,5 +418,71 @@ func produceEnvelopeGen(repo string) ([]byte, []string) {
 			emit(s.name, s.vars, s.boolean, s.fn+": "+pnode(fset, e), c, err)
 		}
 	}
+	// inventory of every call that writes a balance, a nonce, code or the suicide set in the EVM
+	// packages (Model/EvmFrames.v claims to model all of them)
+	b.WriteString("\n(* every call of a balance / nonce / code / suicide writer in vm/evm/*.go and smartcontract/service/evm/*.go: (file, function, callee) *)\n")
+	b.WriteString("Definition STATE_WRITE_SITES : list (string * string * string) := [\n")
+	sitesFound, serrs := writeSites(repo)
+	errs = append(errs, serrs...)
+	for i, st := range sitesFound {
+		sep := ";"
+		if i == len(sitesFound)-1 {
+			sep = ""
+		}
+		fmt.Fprintf(&b, "  (%q%%string, %q%%string, %q%%string)%s\n", st[0], st[1], st[2], sep)
+	}
+	b.WriteString("].\n")
 	return b.Bytes(), errs
+}
+
+var writers = map[string]bool{"AddBalance": true, "SubBalance": true, "SetBalance": true, "SetNonce": true,
+	"Suicide": true, "Transfer": true, "SetCode": true}
+
+func writeSites(repo string) ([][3]string, []string) {
+	var out [][3]string
+	var errs []string
+	for _, dir := range []string{"vm/evm", "smartcontract/service/evm"} {
+		files, err := filepath.Glob(filepath.Join(repo, dir, "*.go"))
+		if err != nil || len(files) == 0 {
+			errs = append(errs, "no Go files in "+dir)
+			continue
+		}
+		sort.Strings(files)
+		for _, f := range files {
+			if strings.HasSuffix(f, "_test.go") || strings.HasSuffix(f, "verif_hooks.go") {
+				continue
+			}
+			fset := token.NewFileSet()
+			af, err := parser.ParseFile(fset, f, nil, 0)
+			if err != nil {
+				errs = append(errs, err.Error())
+				continue
+			}
+			rel := dir + "/" + filepath.Base(f)
+			for _, d := range af.Decls {
+				fd, ok := d.(*ast.FuncDecl)
+				if !ok || fd.Body == nil {
+					continue
+				}
+				ast.Inspect(fd.Body, func(n ast.Node) bool {
+					ce, ok := n.(*ast.CallExpr)
+					if !ok {
+						return true
+					}
+					name := ""
+					switch fn := ce.Fun.(type) {
+					case *ast.SelectorExpr:
+						name = fn.Sel.Name
+					case *ast.Ident:
+						name = fn.Name
+					}
+					if writers[name] {
+						out = append(out, [3]string{rel, fd.Name.Name, name})
+					}
+					return true
+				})
+			}
+		}
+	}
+	return out, errs
 }
